@@ -13,6 +13,7 @@ import XmppModel.Lemmas.IbbCarrier
 import XmppModel.Model.IbbWriteSide
 import XmppModel.Model.IbbFlow
 import XmppModel.Model.IbbWrap
+import XmppModel.Model.IbbWireFlow
 import XmppModel.Model.IbbCloseProbe
 import XmppModel.Lemmas.IbbFlow
 import XmppModel.Lemmas.IbbWriteSide
@@ -1304,6 +1305,171 @@ its bare address, a third party and the server are not (item-not-found, the stre
 theorem C15_sender_probe : Generated.C15.senderProbe = some ((List.range 6).map senderModel) := by decide
 
 end Sender
+
+/-! ### the composition: writer, wire, receiver with flow control, reader (round G) -/
+section Composition
+open XmppModel.IbbWriteSide
+
+/-- C15_end_to_end_flow — `C15_end_to_end` without its two restrictions (unlimited buffer, reader
+idle).  The writer does anything (any partition into Write / Flush / Close, any block size: the
+executable packetiser, `C15_packetiser_emits`); the receiver starts with ANY buffer limit; the
+receiver's history is ANY interleaving of the sender's packets — each one possibly refused for
+lack of room and sent again, any number of times —, packets that are not the stream's (another
+session id, another sender: `C15_foreign_stanzas_inert`), corrupt / stale / repeated packets, reads
+of any sizes and limit changes, such that the packets that end up acknowledged are the sender's
+(`C15_flow_acked_consecutive`: no other sequence can be).  Then what the reader has got plus what is
+still buffered is a prefix of the bytes written, in order, each once, unmodified (`C15_flow_pipe`,
+`C15_flow_exactly_once`); after `Close` it is all of them; and once the reader has drained the
+buffer of the closed stream every further Read is end-of-file, not before (`C15_eof_only_when_drained`). -/
+theorem C15_end_to_end_flow (bs maxBuf : Nat) (wops : List SOp) (ops : List FOp)
+    (hacked : (flowRun std ⟨true, 0, [], maxBuf⟩ ops).acked = packetsOf bs wops) :
+    let r := flowRun std ⟨true, 0, [], maxBuf⟩ ops
+    (r.delivered ++ r.st.buf).isPrefixOf (writtenOf false wops) = true ∧
+    (SOp.close ∈ wops → r.delivered ++ r.st.buf = writtenOf false wops) ∧
+    (SOp.close ∈ wops → ∀ n, (readOut (Ibb.close r.st) n = .eof ↔ r.delivered = writtenOf false wops)) := by
+  have h := C15_flow_pipe std _ _ _ maxBuf ops (C15_packetiser_emits bs wops) hacked
+  simp only [] at h
+  refine ⟨h.1, fun hc => h.2 (by simp [hc]), ?_⟩
+  intro hc n
+  have hall := h.2 (by simp [hc])
+  rw [(C15_eof_only_when_drained _ n).1]
+  constructor
+  · intro hb; rw [hb, List.append_nil] at hall; exact hall
+  · intro hd
+    rw [hd] at hall
+    exact List.append_cancel_left (as := writtenOf false wops) (by simpa using hall)
+
+/-- the same history with every stanza that is not the stream's removed gives the same bytes: what
+third parties and other streams send plays no role in `C15_end_to_end_flow` -/
+theorem C15_end_to_end_flow_ignores_foreign (maxBuf : Nat) (ops : List FOp) :
+    (flowRun std ⟨true, 0, [], maxBuf⟩ (dropForeign ops)).acked = (flowRun std ⟨true, 0, [], maxBuf⟩ ops).acked ∧
+    (flowRun std ⟨true, 0, [], maxBuf⟩ (dropForeign ops)).delivered = (flowRun std ⟨true, 0, [], maxBuf⟩ ops).delivered :=
+  ⟨(C15_foreign_stanzas_inert std ops _).2.1, (C15_foreign_stanzas_inert std ops _).2.2⟩
+
+/-- the writer's side under EVERY schedule of application and serving goroutine (write-side LTS,
+lock discipline `C15_write_side_locked`): the bytes accepted are the chunks of the Write calls in
+the order in which they took the lock, and what is on the wire plus what is buffered is exactly
+that — so the concurrent run is the sequential history `writesOf acts` as far as bytes are
+concerned, and `C15_end_to_end_flow` applies to it -/
+theorem C15_write_side_linearises (acts : List Act) (s : St) (h : run true {} acts = some s) :
+    s.written = (writesOf acts).flatten ∧ s.wire ++ s.buf = (writesOf acts).flatten ∧
+    s.written = writtenOf false ((writesOf acts).map SOp.write) := by
+  have hw := run_written true acts {} s h
+  simp only [List.nil_append] at hw
+  refine ⟨hw, by rw [C15_write_side_exactly_once acts s h, hw], ?_⟩
+  rw [hw]
+  generalize writesOf acts = cs
+  induction cs with
+  | nil => rfl
+  | cons c cs ih => simp [writtenOf, ih]
+
+/-- BOTH DIRECTIONS, all schedules: two endpoints A and B, each writing on its side under any
+interleaving of its own goroutines (`actsA`, `actsB`), each then closing; the packets travel as the
+packetiser cuts them (any block sizes), each receiver with its own limit and its own history (reads,
+refusals and re-sends, foreign and bad packets).  What B's reader gets plus what B still buffers is
+exactly what A's Write calls accepted, in lock order, and vice versa; the two directions share
+nothing (`C15_both_directions`). -/
+theorem C15_end_to_end_duplex (bsA bsB maxA maxB : Nat) (actsA actsB : List Act) (sA sB : St)
+    (opsAtB opsAtA : List FOp)
+    (hA : run true {} actsA = some sA) (hB : run true {} actsB = some sB)
+    (hackB : (flowRun std ⟨true, 0, [], maxB⟩ opsAtB).acked = packetsOf bsA ((writesOf actsA).map SOp.write ++ [.close]))
+    (hackA : (flowRun std ⟨true, 0, [], maxA⟩ opsAtA).acked = packetsOf bsB ((writesOf actsB).map SOp.write ++ [.close])) :
+    (flowRun std ⟨true, 0, [], maxB⟩ opsAtB).delivered ++ (flowRun std ⟨true, 0, [], maxB⟩ opsAtB).st.buf = sA.written ∧
+    (flowRun std ⟨true, 0, [], maxA⟩ opsAtA).delivered ++ (flowRun std ⟨true, 0, [], maxA⟩ opsAtA).st.buf = sB.written := by
+  have wr : ∀ cs : List Bytes, writtenOf false (cs.map SOp.write ++ [.close]) = cs.flatten := by
+    intro cs; induction cs with
+    | nil => rfl
+    | cons c cs ih => simp [writtenOf, ih]
+  constructor
+  · have := (C15_end_to_end_flow bsA maxB _ opsAtB hackB).2.1 (by simp)
+    rw [this, wr, (C15_write_side_linearises actsA sA hA).1]
+  · have := (C15_end_to_end_flow bsB maxA _ opsAtA hackA).2.1 (by simp)
+    rw [this, wr, (C15_write_side_linearises actsB sB hB).1]
+
+/-- non-vacuity of the composition: A writes `ABC` `DEF` (block size 3) and closes; B has a limit of
+4 bytes: packet 1 is refused, B reads, packet 1 is sent again; a third party's packet is refused;
+B's reader gets `ABCDEF`, then end-of-file -/
+example :
+    let ops : List FOp := [.pkt ⟨true, 0, [81, 85, 74, 68]⟩, .pkt ⟨true, 1, [82, 69, 86, 71]⟩, .pkt ⟨false, 1, [90, 88, 90, 112]⟩,
+      .read 8, .pkt ⟨true, 1, [82, 69, 86, 71]⟩, .read 8]
+    (flowRun std ⟨true, 0, [], 4⟩ ops).acked = packetsOf 3 [.write [65, 66, 67], .write [68, 69, 70], .close] ∧
+    (flowRun std ⟨true, 0, [], 4⟩ ops).delivered = [65, 66, 67, 68, 69, 70] ∧
+    readOut (Ibb.close (flowRun std ⟨true, 0, [], 4⟩ ops).st) 8 = .eof := by decide
+
+/-- the wire level refines the receiver function: whatever the carrier stanza looks like (other
+children around the packet), however the body is serialised and whatever text the seq attribute
+is, the receiver ends in the state `recv` reaches on the abstracted packet and acknowledges in
+exactly the same cases -/
+theorem C15_wire_refines_recv (cd : Codec) (s : RState) (before after : List Nat) (p : BodyPacket) :
+    recvMessage cd s (carrierChildren before after p) =
+      .handled (recvBody cd s p).1 (recvBody cd s p).2 ∧
+    (recvBody cd s p).1 = (recv cd s (absPacket p)).1 ∧
+    ((recvBody cd s p).2 = .ack ↔ (recv cd s (absPacket p)).2 = .ack) := by
+  refine ⟨C15_carrier_handled_like_bare_packet cd s before after p, ?_⟩
+  unfold recvBody recvWire absPacket
+  by_cases hk : (!(p.known && s.live)) = true
+  · rw [if_pos hk]
+    cases hp : parseSeqAttr p.seqAttr with
+    | malformed => simp [recv]
+    | num n => simp only []; unfold recv; simp only [hk, if_true]; simp
+  · rw [if_neg hk]
+    cases hp : parseSeqAttr p.seqAttr with
+    | malformed => simp [recv]
+    | num n => simp
+
+/-- hence a wire-level history IS the flow-control history of its abstraction: same final state, same
+acknowledged packets, same bytes for the reader -/
+theorem C15_wire_run_is_flow_run (cd : Codec) : ∀ (ops : List WOp) (s : RState),
+    (wireRun cd s ops).1 = (flowRun cd s (ops.map WOp.abs)).st ∧
+    (wireRun cd s ops).2.1 = (flowRun cd s (ops.map WOp.abs)).acked ∧
+    (wireRun cd s ops).2.2 = (flowRun cd s (ops.map WOp.abs)).delivered := by
+  intro ops
+  induction ops with
+  | nil => intro s; exact ⟨rfl, rfl, rfl⟩
+  | cons o os ih =>
+    intro s
+    cases o with
+    | stanza b a p =>
+      obtain ⟨h1, h2, h3⟩ := C15_wire_refines_recv cd s b a p
+      have := ih (recvBody cd s p).1
+      simp only [wireRun, h1, List.map_cons, WOp.abs, flowRun]
+      rw [← h2]
+      refine ⟨this.1, ?_, this.2.2⟩
+      by_cases ha : (recvBody cd s p).2 = .ack
+      · simp [ha, h3.mp ha, this.2.1]
+      · have hb : ¬ (recv cd s (absPacket p)).2 = .ack := fun h => ha (h3.mpr h)
+        simp [ha, hb, this.2.1]
+    | read n =>
+      have := ih (Ibb.read s n).1
+      simp only [wireRun, List.map_cons, WOp.abs, flowRun]
+      exact ⟨this.1, this.2.1, by rw [this.2.2]⟩
+    | setMax n bs => simpa [wireRun, WOp.abs, flowRun] using ih (setMax s n bs)
+
+/-- C15_end_to_end_wire: `C15_end_to_end_flow` stated for what actually arrives — carrier stanzas with
+any other children, seq attributes as text, bodies in pieces, in any interleaving with reads and
+limit changes, any buffer limit: if the packets that end up acknowledged are the sender's, the
+reader gets a prefix of the bytes written, all of them after Close, each once, in order -/
+theorem C15_end_to_end_wire (bs maxBuf : Nat) (wops : List SOp) (ops : List WOp)
+    (hacked : (wireRun std ⟨true, 0, [], maxBuf⟩ ops).2.1 = packetsOf bs wops) :
+    let r := wireRun std ⟨true, 0, [], maxBuf⟩ ops
+    (r.2.2 ++ r.1.buf).isPrefixOf (writtenOf false wops) = true ∧
+    (SOp.close ∈ wops → r.2.2 ++ r.1.buf = writtenOf false wops) := by
+  obtain ⟨h1, h2, h3⟩ := C15_wire_run_is_flow_run std ops ⟨true, 0, [], maxBuf⟩
+  have := C15_end_to_end_flow bs maxBuf wops (ops.map WOp.abs) (by rw [← h2]; exact hacked)
+  simp only [] at this ⊢
+  rw [h1, h3]
+  exact ⟨this.1, this.2.1⟩
+
+/-- non-vacuity: packet 0 behind a hint and a thread with its body cut into text + CDATA, a packet
+whose seq attribute is `65536` (refused), packet 1 as the only child; the reader gets `ABCDEF` -/
+example :
+    let ops : List WOp := [.stanza [0, 1] [] ⟨true, [48], [.text [81, 85], .cdata [74, 68]]⟩,
+      .stanza [] [] ⟨true, [54, 53, 53, 51, 54], [.text [90, 88, 90, 112]]⟩,
+      .stanza [] [2] ⟨true, [49], [.text [82, 69, 86, 71]]⟩, .read 8]
+    (wireRun std ⟨true, 0, [], 0⟩ ops).2.1 = packetsOf 3 [.write [65, 66, 67], .write [68, 69, 70], .close] ∧
+    (wireRun std ⟨true, 0, [], 0⟩ ops).2.2 = [65, 66, 67, 68, 69, 70] := by decide
+
+end Composition
 
 /-! ### the executable codec instance: spot checks -/
 example : std.dec (std.enc [1, 2, 3, 4, 5]) = some [1, 2, 3, 4, 5] := by decide
